@@ -811,6 +811,21 @@ func checkC19(c *Ctx) {
 			r.Check(okTrue && okFalse, "C19.dump-bools", fnName(DV)+":bool-spelling", p.IPos(setPrintf), "bools are printed as words doSet accepts",
 				fmt.Sprintf("the inputrc-format dump prints values with %%v: a bool appears as true/false, but `set` reads only %v as true — every boolean variable parses back as off", acc))
 		}
+		// strings: a bare value ends at '#', a space or a control character when `set` reads it
+		// (findEnd), so the value printed for a string variable can come from a quoting call
+		r.Rule("C19.dump-strings", "K3", "the inputrc-format variable dump can write a string value as a quoted string (a strconv.Quote result reaches the value printed by the `set %s %v` line): `set` reads a bare value only up to the first '#', space or control character, and the default configuration has such values (comment-begin, completion-selection-style)", 1)
+		if setPrintf != nil {
+			quoted := false
+			for _, l := range backSlice(setPrintf.Call.Args[1], &SliceOpts{P: p, ElemOf: true, IsSource: func(v ssa.Value) bool {
+				cl, ok := v.(*ssa.Call)
+				return ok && calleeName(cl) == "strconv.Quote"
+			}}) {
+				if l.Kind == LeafSource {
+					quoted = true
+				}
+			}
+			r.Check(quoted, "C19.dump-strings", fnName(DV)+":string-quoting", p.IPos(setPrintf), "a strconv.Quote result reaches the printed value", "string values are printed bare: `set comment-begin #` and a value holding an escape character read back as the empty string (the reader ends a bare value at '#', a space or a control character)")
+		}
 	} else {
 		r.Unk("C19.dump-bools", "dumpVariables/doSet", "-", "anchor not found")
 	}
